@@ -3,7 +3,7 @@ import itertools, math
 import numpy as np
 from vf import core
 from vf.ref import defs, dims, names, uexpr
-from vf.monitors import c02_handles
+from vf.monitors import c02_handles, c02_usys
 from .common import all_names, chunks, udim, TAINTED
 
 RULE = ("names: every exposed unit name (exhaustive); a case is distinct per name. pairs: ordered pairs of names sharing a "
@@ -20,7 +20,17 @@ RULE = ("names: every exposed unit name (exhaustive); a case is distinct per nam
         "distinct = (handle provenance, relation of h to the handle that made the last edit touching the string's symbols "
         "[editor / shares its table, older or newer / snapshot taken after it / independent of it], edit kind, string class, "
         "resolved-before-the-edit or not, defined/undefined). Enumerated: every provenance x edit kind x edit direction x spawn "
-        "time x warming handle (450 histories, seed-independent); random: longer histories over up to 7 live handles")
+        "time x warming handle (450 histories, seed-independent); random: longer histories over up to 7 live handles. "
+        "usys: histories on UnitRegistry(unit_system=S), S = mks (control), cgs, imperial, galactic, solar, planck, geometrized and two custom "
+        "UnitSystems, given by name or as the object: each step puts one new symbol in by one of 9 ways (define_unit with a (number, 'expr') "
+        "tuple / a quantity bound to R / number*Unit(expr, registry=R) / a quantity of the default registry, R.add, R.add+modify(float), "
+        "R.add+modify(quantity of R / of the default registry), define_unit+modify(quantity)); 'expr' is a random compound over exactly "
+        "defined built-ins, the system's base units and the symbols defined earlier in the history. One evaluation = the new symbol's "
+        "Unit(sym, registry=R) scale+dimension, one SI-prefixed form (prefix x scale, or refusal when not prefixable), one compound parsed "
+        "from a string, one compound built with Unit operators, or one conversion (to the SI base string and back, to the defining "
+        "expression and back, to another user symbol, in_mks(), in_cgs(), in_base() in R's own system) against number x reference scale of "
+        "the expression (ref/regmodel.py sequential model); every symbol is judged right after its definition and again after all later "
+        "ones; distinct = (system, way, evaluation kind, sysarg form, phase). Every system x way is enumerated whatever the seed")
 ASSUMPTIONS = ("vf/ref/defs.py (own transcription of SI/NIST/CODATA/IAU definitions with a tolerance class per entry) is the trusted base",
                "names listed in unyt's default_unit_name_alternatives are the documented spellings",
                "handles: 'the definitions' of a user registry are what the history of add/modify/remove calls made them (sequential model "
@@ -33,7 +43,19 @@ ASSUMPTIONS = ("vf/ref/defs.py (own transcription of SI/NIST/CODATA/IAU definiti
                "handles: compound strings name every editable symbol at most once (a symbol written twice can cancel out of the expression "
                "before it is looked up, and the string is then accepted although the symbol is undefined)",
                "handles: whether an edit call or the making of a handle is accepted is not judged here (C12/C11/C13): the history is abandoned "
-               "and noted; x.in_mks() is judged only when the model can evaluate the unit string it returns, with the same dimension")
+               "and noted; x.in_mks() is judged only when the model can evaluate the unit string it returns, with the same dimension",
+               "usys: the unit system a registry was created with only selects the units results are REPORTED in; a definition "
+               "'number x expr' given to define_unit/modify means number x (scale to SI of expr) in every registry (UnitRegistry.add documents "
+               "base_value as the scaling to the equivalent SI unit), and the base_value given to add/modify(float) is that SI scale",
+               "usys: in_base()/in_cgs()/in_mks() are judged only as conversions (values vs the ratio of the reference scales of the source and "
+               "of the unit string that came back, when the model can read it with the same dimension); which units a system reports in, and "
+               "a refusal (UnitsNotReducible) to express a current-carrying dimension in a system without a current base unit, are C10's subject",
+               "usys: results whose unit string names a symbol with a listed table finding (Mearth in the solar system, ...) are not judged; "
+               "reference scales or base-unit products outside 1e-150..1e150 (1e-290..1e290 for a library ZeroDivision/Overflow) are skipped and counted",
+               "usys: once a symbol's own scale/dimension is reported, it and the symbols defined from it are named in no later judged string "
+               "(consequences are not re-reported under other ways' keys)",
+               "usys: defining expressions and judged compounds are kept to |dimension exponent| <= 4 (8 for judged compounds) and never contain "
+               "logarithmic units (they cannot be multiplied by design) or offset units")
 TIMEOUT = 900
 MIN_EVALS = 3000
 
@@ -56,6 +78,9 @@ def batches(tier, seed):
     b += [("handles-enum/%d" % i, ("handles_enum", (i, ne, tier != "quick"))) for i in range(ne)]
     nr, nh, ln = (16, 12, 14) if tier == "quick" else (64, 40, 36)
     b += [("handles-rand/%d" % i, ("handles_rand", (seed, i, nh, ln, tier != "quick"))) for i in range(nr)]
+    # registries reporting in a non-MKS unit system: every system x sysarg x way is enumerated (expressions and numbers are random)
+    nu, nrep, xs = (16, 8, 0) if tier == "quick" else (48, 48, 6)
+    b += [("usys/%d" % i, ("usys", (seed, i, nu, nrep, xs))) for i in range(nu)]
     return b
 
 
@@ -214,6 +239,11 @@ def worker(batch, rec):
             h = c02_handles.run_random(unyt, r, ln, rec, ncompound=(10 if deep else 6), max_handles=(9 if deep else 7))
             if j < 1:
                 rec.sample({"handles-history": "random", "steps": h.log[:8], "handles": [[o["kind"], o["table"]] for o in h.handles]})
+    elif kind == "usys":
+        seed, i, n, nrep, xs = payload
+        specs = c02_usys.enum_histories(nrep)
+        for j in range(i, len(specs), n):
+            c02_usys.run_enum(unyt, core.rng(seed, "usys", j), specs[j], rec, extra_steps=xs)
     elif kind == "compound":
         seed, i, n = payload
         r = core.rng(seed, "compound", i)
@@ -280,11 +310,14 @@ def extra(tier, seed, results):
     for _, r in results:
         for k, v in r.get("counters", {}).items():
             c[k] = c.get(k, 0) + v
-        reached.update(x for x in r.get("reached", []) if x.startswith("handles|"))
-    zero = [k for k in c02_handles.DECIDING if not c.get(k)]
+        reached.update(x for x in r.get("reached", []) if x.startswith(("handles|", "usys|")))
+    zero = [k for k in c02_handles.DECIDING + c02_usys.DECIDING if not c.get(k)]
     known = core.load_findings()
     if zero and not any(k not in known for _, r in results for k in r.get("viol", {})):     # a new violation is reported, never masked
         raise core.Inconclusive("sub-monitors-saw-nothing:" + ",".join(zero))
     cat = c02_handles.catalogue()
-    return {"sub_monitor_counters": {k: c[k] for k in sorted(c) if k.startswith("handles_")}, "handles_catalogue_size": len(cat),
-            "unreached": sorted(cat - reached)}
+    ucat = c02_usys.catalogue()
+    if ucat - reached and not any(k not in known for _, r in results for k in r.get("viol", {})):
+        raise core.Inconclusive("usys-cells-not-reached:" + ",".join(sorted(ucat - reached)[:6]))
+    return {"sub_monitor_counters": {k: c[k] for k in sorted(c) if k.startswith(("handles_", "usys_"))}, "handles_catalogue_size": len(cat),
+            "usys_catalogue_size": len(ucat), "unreached": sorted((cat | ucat) - reached)}
